@@ -104,6 +104,13 @@ CLAIMED = {
              "zero). ShapedTensor bookkeeping: all 2-call (3 thorough) reconstrain programs over dims in [-rank,rank], sizes {None,1,2,3}, strict and not: "
              "valid => every constraint holds; incompatible addition refused without side effects; removal never alters data.",
         ref="6/C13"),
+    "C14": dict(
+        text="Relational: X constructed at c1 and brought to c2 by setter calls (single attributes and 2-setter sequences, both directions) versus Y "
+             "constructed at c2 - synapses (4 classes; dt, delay, batchsz, inplace), neurons (8 classes; dt, batchsz), connections (dense/direct/lateral; "
+             "dt, batchsz, replacement synapse, synapse delay), reducers (dt, duration, inplace; all orders), .to(float64). Concrete obligations: getters "
+             "report c2, every internal record has Y's size/step time/duration; symbolic obligations: from a cleared state X and Y give equal outputs, "
+             "states, delayed reads (symbolic selector), views and dumps for T = 2-3 symbolic input steps.",
+        ref="6/C14"),
     "C17": dict(
         text="Relational: Serial / Biclique (sum, mean, prod, min, max, custom; with and without connection/neuron transforms) / RecurrentSerial (T=3, "
              "feedback synapse with and without memory and bias) outputs, intermediate currents and every component state versus a hand composition of "
